@@ -11,6 +11,7 @@ import (
 	"github.com/ajitpratap0/GoSQLX/pkg/sql/ast"
 	"github.com/ajitpratap0/GoSQLX/pkg/sql/token"
 	vx "github.com/ajitpratap0/GoSQLX/zzvx"
+	"strings"
 )
 
 var vxC03Lexemes = []string{
@@ -370,12 +371,12 @@ func vxGenSelect(full bool) (vxSelSpec, []token.Token) {
 			fixed("GROUP BY")
 			s.gcol = vxNames.Tok()
 			t = append(t, s.gcol)
-			if s.having = vx.Bool(); s.having {
-				fixed("HAVING")
-				s.hcol = vxNames.Tok()
-				t = append(t, s.hcol)
-				fixed("> 1")
-			}
+		}
+		if s.having = vx.Bool(); s.having {
+			fixed("HAVING")
+			s.hcol = vxNames.Tok()
+			t = append(t, s.hcol)
+			fixed("> 1")
 		}
 		if s.order = vx.Bool(); s.order {
 			fixed("ORDER BY")
@@ -733,5 +734,66 @@ func VxC03_UpdateDelete() {
 	}
 	for k, a := range up.Assignments {
 		vx.Assertf("C03.update_assignment", vxIdentIs(a.Column, cols[k].Literal) && vxLitIs(a.Value, vals[k].Literal), "assignment %d: written %q = %q, tree has %s = %s", k, cols[k].Literal, vals[k].Literal, vx.Dump(a.Column), vx.Dump(a.Value))
+	}
+}
+
+// ---------------------------------------------------------------------------
+// shapes: longer expressions than the token windows reach, with the structure fixed and the
+// operators symbolic: the tree must be the reference parser's tree.
+
+var vxShapeOps = VxMakeTable(vxLexRows([]string{"=", "<", "+", "-", "*", "/", "%", "||", "AND", "OR"}))
+
+// '?' is a symbolic binary operator; everything else is literal text
+var vxShapes = []string{
+	"NOT ( a ) ? b",
+	"NOT ( a ? b ) ? c",
+	"NOT a ? b ? c",
+	"( a ) ? b ? ( c )",
+	"( a ? b ) ? c ? d",
+	"a ? ( b ? c ) ? d",
+	"a ? b ? c ? d",
+	"- a ? b ? - c",
+	"a ? NOT b ? c",
+	"NOT NOT a ? b",
+	"( ( a ? b ) ) ? ( c ? d )",
+	"a ? b AND NOT ( c ? d )",
+}
+
+func VxC03_Shapes() {
+	sh := vxShapes[vx.Choice(len(vxShapes))]
+	var win []token.Token
+	for _, w := range VxFixed(strings.ReplaceAll(sh, "?", "=")) {
+		win = append(win, w)
+	}
+	// replace the placeholders (tokenised as '=') of the template by symbolic operators, in order
+	plain := VxFixed(strings.ReplaceAll(sh, "?", ""))
+	_ = plain
+	words := strings.Fields(sh)
+	if len(words) != len(win) {
+		return
+	}
+	for k, w := range words {
+		if w == "?" {
+			win[k] = vxShapeOps.Tok()
+		}
+	}
+	toks := append([]token.Token{}, VxFixed("SELECT a FROM t WHERE")...)
+	toks = append(toks, win...)
+	toks = append(toks, VxEOF)
+	VxNoteToks(win)
+	tree, err := NewParser().Parse(toks)
+	r := &refParser{t: win, ok: true}
+	m := r.expr()
+	if !r.ok || r.pos != len(win) || m == nil {
+		return
+	}
+	vx.Assertf("C03.accept", err == nil, "expression of the documented grammar rejected: %v", err)
+	if err != nil {
+		return
+	}
+	sel, ok := tree.Statements[0].(*ast.SelectStatement)
+	vx.Assert("C03.select", ok && sel != nil)
+	if ok && sel != nil {
+		vxSameTree(sel.Where, m, "W")
 	}
 }
